@@ -8,7 +8,7 @@ from rules.c06 import pattern_templates, name_pattern, regex_patterns, single_pa
 LEVEL = "other"
 MIN_OBLIGATIONS = 22
 THOROUGH_CONFIGS = ("headeronly",)
-TECHNIQUE = "def-use rules on the rotation date, max+1 index rule in linear form, writer/reader agreement of the rotated-name scheme (format template vs the two regex families), truth-table projection of the daily guard, all-paths rule that the active file is dated with the record about to be written; order rules in rotate() (index before retention; retention from the old end); abstract string evaluation of the name writer (templates, concatenation, joined part lists, isEmpty arms); single-pass rule for .arg() chains; nothing writes to the file before its start-up modification time is read; QDir name filters are wildcard patterns; one time base for the sink's dates"
+TECHNIQUE = "def-use rules on the rotation date, max+1 index rule in linear form, writer/reader agreement of the rotated-name scheme (format template vs the two regex families), truth-table projection of the daily guard, all-paths rule that the active file is dated with the record about to be written; order rules in rotate() (index before retention; retention from the old end); abstract string evaluation of the name writer (templates, concatenation, joined part lists, isEmpty arms); single-pass rule for .arg() chains; nothing writes to the file before its start-up modification time is read; QDir name filters are wildcard patterns; one time base for the sink's dates; the persisted day is a local time that exists in every zone, in the time specification the reader uses"
 LEVEL_TEXT = ("Decides structurally, for all histories: the rotated name is built from the active file's date (never from the clock while that date is valid), the index is one more than the "
               "highest existing index among plain and .gz names of that date, the name writer and the two name readers agree on fields, order and separators in both suffix variants, the "
               "rotated file is produced by the overwrite-refusing static QFile::rename only, daily rotation fires iff the record's date differs from the file's date and the file is non-empty, "
